@@ -118,9 +118,63 @@ def r7_comparator_class(ctx, repo):
                   "(other classes of the package cannot be constructed by these calls)" % nwrites)
 
 
+def r8_lookup(ctx, repo):
+    """the id -> member lookup used while peeling must answer from the population it is given: every value it returns is
+    an element of its population argument (or None); a value read from the selector's own state was put there by an earlier
+    call, possibly for another population whose members carry the same ids (copies, members read back from a store)"""
+    cls = repo.cls("Selector", "operators")
+    mod = cls.module
+    fn = cls.methods.get("individual")
+    C = "Selector.individual"
+    if fn is None:
+        ctx.inconclusive("R8", C, where(mod, cls.node), "lookup method not found")
+        return
+    ps = func_params(fn)
+    if len(ps) < 3:
+        ctx.inconclusive("R8", C, where(mod, fn), "signature not recognised")
+        return
+    selfn, pop = ps[0], ps[1]
+    from ..terms import Terms as _T, PathEnv as _PE
+    bad = unknown = None
+    n = 0
+    for p in Enumerator(loop_counts=(0, 1, 2)).function_paths(fn):
+        if p.outcome == "raise":
+            continue
+        n += 1
+        pe = _PE(fn, p.events)
+        for i, e in enumerate(p.events):
+            if e.kind != "return" or e.node.value is None:
+                continue
+            v = pe.expand_at(e.node.value, i)
+            if isinstance(v, ast.Constant) and v.value is None:
+                continue
+            reads = {n_.id for n_ in ast.walk(v) if isinstance(n_, ast.Name)}
+            from_state = [text(a) for a in ast.walk(v) if isinstance(a, ast.Attribute) and isinstance(a.value, ast.Name) and a.value.id == selfn]
+            # the loop variable of a loop over the population argument, or a term over the population argument
+            loop_vars = {ev.node.target.id for ev in p.events[:i] if ev.kind == "iter" and isinstance(ev.node, ast.For) and isinstance(ev.node.target, ast.Name)
+                         and access_path(ev.node.iter) == pop}
+            if from_state:
+                bad = bad or (e.node, "returns %s, read from the selector's own state %s: it was stored by an earlier call and need not be a member of the population "
+                                      "passed now (another population with the same ids is ranked through the objects of the first)" % (text(v)[:80], from_state[0]))
+            elif isinstance(v, ast.Name) and v.id in loop_vars:
+                continue
+            elif pop in reads and selfn not in reads:
+                continue
+            else:
+                unknown = unknown or (e.node, "returned value %s not recognised as a member of %s" % (text(v)[:80], pop))
+    if bad:
+        ctx.violated("R8", C, where(mod, bad[0]), bad[1])
+    elif unknown or n == 0:
+        ctx.inconclusive("R8", C, where(mod, (unknown or (fn,))[0]), unknown[1] if unknown else "no path")
+    else:
+        ctx.holds("R8", C, where(mod, fn), "every returned value is an element of the population argument or None (%d paths)" % n)
+
+
 def run(ctx):
     ctx.rule("R7", "the ranking comparator is Pareto dominance for every constructible selector")
+    ctx.rule("R8", "the id lookup answers from the population it is given, not from state kept across calls")
     r7_comparator_class(ctx, ctx.repo)
+    r8_lookup(ctx, ctx.repo)
     run_sorting(ctx)
 
 
